@@ -4,6 +4,7 @@ import (
 	"encoding/json"
 	"flag"
 	"fmt"
+	"go/printer"
 	"os"
 	"sort"
 	"strings"
@@ -61,6 +62,17 @@ func main() {
 			*tier = "quick"
 		}
 		os.Exit(runCheck(id, *tier))
+	case "dumpnorm":
+		// triage helper: print a function of /repo as the checks see it after load-time normalisation
+		prog, err := core.Load("./...")
+		if err != nil {
+			fmt.Fprintln(os.Stderr, err)
+			os.Exit(2)
+		}
+		if f := core.FindFunc(prog.Pkg(os.Args[2]), os.Args[3]); f != nil && f.Decl != nil {
+			_ = printer.Fprint(os.Stdout, prog.Fset, f.Decl)
+			fmt.Println()
+		}
 	case "shared":
 		b, _ := json.MarshalIndent(checks.SharedRules(), "", " ")
 		fmt.Println(string(b))
